@@ -82,8 +82,11 @@ def enc_case(p):
         # EVENT / ACK whose payload holds byte strings (the constructor
         # promotes it; handing it BINARY_EVENT directly is an API misuse it
         # answers with ValueError - recorded in DESIGN.md, not alarmed)
-        pkt = sio_packet.Packet(ty - 3 if ty in (5, 6) else ty, data=data,
-                                namespace=ns, id=pid)
+        # (a binary packet WITHOUT byte strings can only be built with its
+        # type given: zero attachments)
+        pkt = sio_packet.Packet(
+            ty - 3 if ty in (5, 6) and refcodec.has_bytes(data) else ty,
+            data=data, namespace=ns, id=pid)
         e = pkt.encode()
         if not isinstance(e, list):
             e = [e]
@@ -227,7 +230,7 @@ def rpacket(rng):
         data = rng.choice([None, {'sid': rstr(rng, 8)}, rstr(rng, 8) or 'm',
                            {'message': rstr(rng), 'data': [1, rstr(rng)]},
                            {'k': b'\x00'}])
-    if ty in (5, 6) and not refcodec.has_bytes(data):
+    if ty in (5, 6) and not refcodec.has_bytes(data) and rng.random() < .7:
         data.append(b'\x07' * rng.randrange(0, 3))
     return {'ty': ty, 'ns': NONE if ns is None else chars(ns),
             'id': NONE if pid is None else chars(str(pid)),
@@ -257,7 +260,7 @@ def well_formed(p):
     ty, ns, pid, data = pkt_of(p)
     if refcodec.has_bytes(data) and ty not in (2, 3, 5, 6):
         return False
-    if ty in (5, 6) and not refcodec.has_bytes(data):
+    if ty in (5, 6) and data is None:
         return False
     return True
 
